@@ -369,24 +369,27 @@ Proof. split; vm_compute; reflexivity. Qed.
 (* ------------------------------------------------------------------ *)
 (* Part 3: every delivered interaction is written exactly once         *)
 (* ------------------------------------------------------------------ *)
+Section WriterProofs.
+Variable raises : wconf -> inter -> bool.
+
 Lemma write_entries_ok w ints : forall out,
-  forallb (fun i => negb (entry_raises w i)) ints = true ->
-  write_entries w ints out = (out ++ complete (map i_id ints), true).
+  forallb (fun i => negb (raises w i)) ints = true ->
+  write_entries_gen raises w ints out = (out ++ complete (map i_id ints), true).
 Proof.
   induction ints as [|i ints IH]; intros out H.
   - cbn. rewrite app_nil_r. reflexivity.
   - cbn [forallb] in H. apply andb_true_iff in H; destruct H as [Hi Hs]. apply negb_true_iff in Hi.
-    cbn [write_entries map complete]. rewrite Hi. rewrite IH by exact Hs. rewrite <- app_assoc. reflexivity.
+    cbn [write_entries_gen map complete]. rewrite Hi. rewrite IH by exact Hs. rewrite <- app_assoc. reflexivity.
 Qed.
 
 (* what one scenario adds: ids of a prefix of its interactions; the whole of it when no entry raised *)
 Lemma write_entries_prefix w ints : forall out,
-  exists done rest, fst (write_entries w ints out) = out ++ done /\ map i_id ints = map fst done ++ rest
-    /\ (snd (write_entries w ints out) = true -> rest = []).
+  exists done rest, fst (write_entries_gen raises w ints out) = out ++ done /\ map i_id ints = map fst done ++ rest
+    /\ (snd (write_entries_gen raises w ints out) = true -> rest = []).
 Proof.
   induction ints as [|i ints IH]; intros out.
   - exists [], []. cbn. rewrite app_nil_r. repeat split.
-  - cbn [write_entries]. destruct (entry_raises w i).
+  - cbn [write_entries_gen]. destruct (raises w i).
     + unfold truncated_entry. destruct (w_fmt w).
       * exists [(i_id i, false)], (map i_id ints). cbn. repeat split. discriminate.
       * exists [], (map i_id (i :: ints)). cbn. rewrite app_nil_r. repeat split. discriminate.
@@ -402,33 +405,33 @@ Definition qprocs (h : list cevent) : list qmsg :=
 Lemma complete_app a b : complete (a ++ b) = complete a ++ complete b.
 Proof. unfold complete. apply map_app. Qed.
 
-Lemma writer_loop_ok w h : forall out, no_entry_raises w h = true ->
-  writer_loop w (qprocs h ++ [QFinalize]) out = (out ++ complete (delivered h), Closed).
+Lemma writer_loop_ok w h : forall out, no_entry_raises_gen raises w h = true ->
+  writer_loop_gen raises w (qprocs h ++ [QFinalize]) out = (out ++ complete (delivered h), Closed).
 Proof.
   induction h as [|e h IH]; intros out H.
   - cbn. rewrite app_nil_r. reflexivity.
-  - cbn [no_entry_raises forallb] in H. apply andb_true_iff in H; destruct H as [He Hh].
+  - cbn [no_entry_raises_gen forallb] in H. apply andb_true_iff in H; destruct H as [He Hh].
     destruct e as [ints|].
-    + cbn [qprocs flat_map app writer_loop delivered]. rewrite write_entries_ok by exact He.
+    + cbn [qprocs flat_map app writer_loop_gen delivered]. rewrite write_entries_ok by exact He.
       fold (qprocs h). fold (delivered h). rewrite IH by exact Hh. rewrite complete_app, <- app_assoc. reflexivity.
     + cbn [qprocs flat_map app delivered]. fold (qprocs h). fold (delivered h). apply IH, Hh.
 Qed.
 
-Lemma each_interaction_once w h : no_entry_raises w h = true -> written w h = (complete (delivered h), Closed).
+Lemma each_interaction_once w h : no_entry_raises_gen raises w h = true -> written_gen raises w h = (complete (delivered h), Closed).
 Proof.
-  intros H. unfold written, cassette_queue. cbn [writer_loop]. fold (qprocs h).
+  intros H. unfold written_gen, cassette_queue. cbn [writer_loop_gen]. fold (qprocs h).
   rewrite writer_loop_ok by exact H. reflexivity.
 Qed.
 
 Lemma writer_loop_prefix w h : forall out,
-  exists done rest, fst (writer_loop w (qprocs h ++ [QFinalize]) out) = out ++ done /\ delivered h = map fst done ++ rest.
+  exists done rest, fst (writer_loop_gen raises w (qprocs h ++ [QFinalize]) out) = out ++ done /\ delivered h = map fst done ++ rest.
 Proof.
   induction h as [|e h IH]; intros out.
   - exists [], []. cbn. rewrite app_nil_r. split; reflexivity.
   - destruct e as [ints|].
-    + cbn [qprocs flat_map app writer_loop delivered]. fold (qprocs h). fold (delivered h).
+    + cbn [qprocs flat_map app writer_loop_gen delivered]. fold (qprocs h). fold (delivered h).
       destruct (write_entries_prefix w ints out) as (d1 & r1 & Hd1 & Hr1 & Hok).
-      destruct (write_entries w ints out) as [out1 ok] eqn:E. cbn [fst snd] in Hd1, Hok. subst out1.
+      destruct (write_entries_gen raises w ints out) as [out1 ok] eqn:E. cbn [fst snd] in Hd1, Hok. subst out1.
       destruct ok.
       * rewrite (Hok eq_refl), app_nil_r in Hr1.
         destruct (IH (out ++ d1)) as (d2 & r2 & Hd2 & Hr2).
@@ -439,28 +442,67 @@ Proof.
 Qed.
 
 (* whatever happens nothing is invented, duplicated or reordered: the ids in the file are a prefix of what was delivered *)
-Lemma written_is_prefix w h : exists rest, delivered h = map fst (fst (written w h)) ++ rest.
+Lemma written_is_prefix w h : exists rest, delivered h = map fst (fst (written_gen raises w h)) ++ rest.
 Proof.
-  unfold written, cassette_queue. cbn [writer_loop]. fold (qprocs h).
+  unfold written_gen, cassette_queue. cbn [writer_loop_gen]. fold (qprocs h).
   destruct (writer_loop_prefix w h []) as (done & rest & Hd & Hr).
   rewrite Hd. cbn [app]. exists rest. exact Hr.
 Qed.
 
+End WriterProofs.
+
 Definition har_sanitized : wconf := {| w_fmt := HAR; w_sanitize := true; w_preserve := false |}.
 Definition vcr_default : wconf := {| w_fmt := VCR; w_sanitize := true; w_preserve := false |}.
-Definition i_plain (n : N) : inter := {| i_id := n; i_userinfo := false; i_response := true; i_codec_known := true |}.
-Definition i_user (n : N) : inter := {| i_id := n; i_userinfo := true; i_response := true; i_codec_known := true |}.
-Definition i_bogus (n : N) : inter := {| i_id := n; i_userinfo := false; i_response := true; i_codec_known := false |}.
+Definition i_plain (n : N) : inter := {| i_id := n; i_userinfo := false; i_response := true; i_codec := CodecOk |}.
+Definition i_user (n : N) : inter := {| i_id := n; i_userinfo := true; i_response := true; i_codec := CodecOk |}.
+Definition i_bogus (n : N) : inter := {| i_id := n; i_userinfo := false; i_response := true; i_codec := CodecUnknown |}.
+Definition i_undefined (n : N) : inter := {| i_id := n; i_userinfo := false; i_response := true; i_codec := CodecRaises |}.
 
-Lemma once_refuted_har : delivered [CScenario [i_user 1]; CScenario [i_plain 2]] = [1; 2]
-  /\ written har_sanitized [CScenario [i_user 1]; CScenario [i_plain 2]] = ([], Died).
+Lemma each_interaction_once_now w h : no_entry_raises w h = true -> written w h = (complete (delivered h), Closed).
+Proof. apply each_interaction_once. Qed.
+
+Lemma written_is_prefix_now w h : exists rest, delivered h = map fst (fst (written w h)) ++ rest.
+Proof. apply written_is_prefix. Qed.
+
+(* HAR: no entry raises any more, whatever the sanitization flag and the URLs *)
+Lemma har_never_raises san pres h : no_entry_raises {| w_fmt := HAR; w_sanitize := san; w_preserve := pres |} h = true.
+Proof.
+  unfold no_entry_raises, no_entry_raises_gen. apply forallb_forall. intros e _. destruct e as [ints|]; [|reflexivity].
+  apply forallb_forall. intros i _. reflexivity.
+Qed.
+Lemma once_har san pres h :
+  written {| w_fmt := HAR; w_sanitize := san; w_preserve := pres |} h = (complete (delivered h), Closed).
+Proof. apply each_interaction_once_now, har_never_raises. Qed.
+
+(* VCR: a charset Python does not know is harmless now *)
+Definition no_raising_codec (h : list cevent) : bool :=
+  forallb (fun e => match e with CScenario ints => forallb (fun i => match i_codec i with CodecRaises => false | _ => true end) ints | COther => true end) h.
+Lemma vcr_no_raising_codec san pres h : no_raising_codec h = true ->
+  no_entry_raises {| w_fmt := VCR; w_sanitize := san; w_preserve := pres |} h = true.
+Proof.
+  unfold no_raising_codec, no_entry_raises, no_entry_raises_gen. intros H. rewrite forallb_forall in *. intros e He.
+  specialize (H e He). destruct e as [ints|]; [|reflexivity]. rewrite forallb_forall in *. intros i Hi.
+  specialize (H i Hi). unfold entry_raises. cbn. destruct (i_codec i); try discriminate; rewrite ?andb_false_r; reflexivity.
+Qed.
+Lemma once_vcr san pres h : no_raising_codec h = true ->
+  written {| w_fmt := VCR; w_sanitize := san; w_preserve := pres |} h = (complete (delivered h), Closed).
+Proof. intros H. apply each_interaction_once_now, vcr_no_raising_codec, H. Qed.
+
+(* what is left: a codec that exists and raises (charset=undefined) *)
+Lemma once_refuted_vcr : delivered [CScenario [i_plain 1; i_undefined 2; i_plain 3]] = [1; 2; 3]
+  /\ written vcr_default [CScenario [i_plain 1; i_undefined 2; i_plain 3]] = ([(1, true); (2, false)], Died).
 Proof. split; reflexivity. Qed.
-Lemma once_refuted_vcr : delivered [CScenario [i_plain 1; i_bogus 2; i_plain 3]] = [1; 2; 3]
-  /\ written vcr_default [CScenario [i_plain 1; i_bogus 2; i_plain 3]] = ([(1, true); (2, false)], Died).
-Proof. split; reflexivity. Qed.
-Example once_nonvacuous : no_entry_raises vcr_default [CScenario [i_user 1; i_plain 2]; COther; CScenario []; CScenario [i_plain 3]] = true
-  /\ written vcr_default [CScenario [i_user 1; i_plain 2]; COther; CScenario []; CScenario [i_plain 3]] = (complete [1; 2; 3], Closed).
-Proof. split; reflexivity. Qed.
+Example once_nonvacuous : no_raising_codec [CScenario [i_user 1; i_bogus 2]; COther; CScenario []; CScenario [i_plain 3]] = true
+  /\ written vcr_default [CScenario [i_user 1; i_bogus 2]; COther; CScenario []; CScenario [i_plain 3]] = (complete [1; 2; 3], Closed)
+  /\ written har_sanitized [CScenario [i_user 1; i_bogus 2]; COther; CScenario []; CScenario [i_plain 3]] = (complete [1; 2; 3], Closed).
+Proof. repeat split; reflexivity. Qed.
+
+(* regression sentinels: the writers before commits 8fd7266e and ad7dc72b lost exchanges on these histories *)
+Lemma old_writers_lost : written_old har_sanitized [CScenario [i_user 1]; CScenario [i_plain 2]] = ([], Died)
+  /\ written har_sanitized [CScenario [i_user 1]; CScenario [i_plain 2]] = (complete [1; 2], Closed)
+  /\ written_old vcr_default [CScenario [i_plain 1; i_bogus 2; i_plain 3]] = ([(1, true); (2, false)], Died)
+  /\ written vcr_default [CScenario [i_plain 1; i_bogus 2; i_plain 3]] = (complete [1; 2; 3], Closed).
+Proof. repeat split; reflexivity. Qed.
 
 (* ------------------------------------------------------------------ *)
 (* Part 2: the JUnit handler crashes exactly outside the region        *)
@@ -612,7 +654,7 @@ Proof.
 Qed.
 
 Definition crashes_from (s : stat) (t : tcases) (w : option tcases) (h : list event) : bool :=
-  match junit_from s t w h with Crash _ => true | Running _ _ _ => false end.
+  match junit_from true s t w h with Crash _ => true | Running _ _ _ => false end.
 
 Lemma junit_crash_iff h : forall s t w seen known, Inv s seen known ->
   crashes_from s t w h = negb (fresh_or_known_from seen known h).
@@ -638,22 +680,143 @@ Proof.
   - cbn [junit_step]. apply IH. exact HI.
 Qed.
 
-Lemma junit_crashes_iff h : junit_crashes h = negb (fresh_failure_or_known_label h).
+Lemma junit_crashes_iff h : junit_crashes_old h = negb (fresh_failure_or_known_label h).
 Proof. apply (junit_crash_iff h stat0 [] None [] [] inv0). Qed.
 
 Lemma junit_partial h : fresh_failure_or_known_label h = true ->
-  exists s t w, junit_run h = Running s t w.
+  exists s t w, junit_run_old h = Running s t w.
 Proof.
-  intros H. pose proof (junit_crashes_iff h) as Hc. rewrite H in Hc. unfold junit_crashes in Hc.
-  destruct (junit_run h) as [l|s t w]; [discriminate|]. eauto.
+  intros H. pose proof (junit_crashes_iff h) as Hc. rewrite H in Hc. unfold junit_crashes_old in Hc.
+  destruct (junit_run_old h) as [l|s t w]; [discriminate|]. eauto.
 Qed.
+
+(* ---- the handler as it is now ---- *)
+Lemma junit_step_runs s t w e : exists s1 t1 w1, junit_step false s t w e = Running s1 t1 w1.
+Proof.
+  destruct e as [r st reason | l | | ]; cbn [junit_step]; try (eexists; eexists; eexists; reflexivity).
+  destruct st; try (eexists; eexists; eexists; reflexivity).
+  - destruct (dget (r_label r) (failures (on_scenario_finished s r))); eexists; eexists; eexists; reflexivity.
+  - destruct reason; eexists; eexists; eexists; reflexivity.
+Qed.
+
+Lemma junit_from_runs h : forall s t w, exists s1 t1 w1, junit_from false s t w h = Running s1 t1 w1.
+Proof.
+  induction h as [|e h IH]; intros s t w; [eexists; eexists; eexists; reflexivity|].
+  cbn [junit_from]. destruct (junit_step_runs s t w e) as (s1 & t1 & w1 & ->). apply IH.
+Qed.
+
+Lemma junit_never_crashes h : exists s t w, junit_run h = Running s t w.
+Proof. apply junit_from_runs. Qed.
+
+(* every FAILURE-status scenario leaves a failure element in the test case of its label *)
+Lemma dget_app_absent {A} k (d : list (N * A)) v : dget k d = None -> dget k (d ++ [(k, v)]) = Some v.
+Proof.
+  induction d as [|[a x] d IH]; cbn [app dget]; intros H.
+  - rewrite N.eqb_refl. reflexivity.
+  - destruct (N.eqb k a); [discriminate | apply IH, H].
+Qed.
+Lemma dget_app_present {A} k (d : list (N * A)) x tl : dget k d = Some x -> dget k (d ++ tl) = Some x.
+Proof.
+  induction d as [|[a y] d IH]; cbn [app dget]; intros H; [discriminate|].
+  destruct (N.eqb k a); [exact H | apply IH, H].
+Qed.
+Lemma dget_app_other {A} k k' (d : list (N * A)) v : k' <> k -> dget k' (d ++ [(k, v)]) = dget k' d.
+Proof.
+  intros Hne. induction d as [|[a x] d IH]; cbn [app dget].
+  - apply N.eqb_neq in Hne. rewrite Hne. reflexivity.
+  - destruct (N.eqb k' a); [reflexivity | exact IH].
+Qed.
+
+Lemma dget_tupdate l l' f t : dget l' (tupdate l f t) = if N.eqb l' l then option_map f (dget l' t) else dget l' t.
+Proof.
+  unfold tupdate. induction t as [|[a c] t IH]; cbn [map dget fst snd].
+  - destruct (N.eqb l' l); reflexivity.
+  - destruct (N.eqb a l) eqn:Eal; cbn [dget fst snd]; destruct (N.eqb l' a) eqn:El'a.
+    + apply N.eqb_eq in Eal, El'a. subst. rewrite N.eqb_refl. reflexivity.
+    + exact IH.
+    + apply N.eqb_eq in El'a. subst a. rewrite Eal. reflexivity.
+    + exact IH.
+Qed.
+
+Lemma has_failure_get_or_create l l' t : has_failure l' t = true -> has_failure l' (get_or_create l t) = true.
+Proof.
+  unfold has_failure, get_or_create. intros H. destruct (dget l t) eqn:E; [exact H|].
+  destruct (dget l' t) as [c|] eqn:E'; [|discriminate]. rewrite (dget_app_present l' t c _ E'). exact H.
+Qed.
+
+Lemma get_or_create_present l t : exists c, dget l (get_or_create l t) = Some c.
+Proof.
+  unfold get_or_create. destruct (dget l t) as [c|] eqn:E; [exists c; exact E|].
+  exists tcase0. apply dget_app_absent, E.
+Qed.
+
+Definition grows (f : tcase -> tcase) : Prop := forall c, t_failures c <> [] -> t_failures (f c) <> [].
+
+Lemma has_failure_tupdate l l' f t : grows f -> has_failure l' t = true -> has_failure l' (tupdate l f t) = true.
+Proof.
+  unfold has_failure. intros Hg H. rewrite dget_tupdate. destruct (N.eqb l' l); [|exact H].
+  destruct (dget l' t) as [c|]; [|discriminate]. cbn [option_map].
+  destruct (t_failures c) eqn:Ec; [discriminate|].
+  destruct (t_failures (f c)) eqn:Ef; [|reflexivity]. exfalso. apply (Hg c); [rewrite Ec; discriminate | exact Ef].
+Qed.
+
+Lemma has_failure_added l g t : has_failure l (tupdate l (add_failure_groups g) (get_or_create l t)) = true.
+Proof.
+  unfold has_failure. rewrite dget_tupdate, N.eqb_refl. destruct (get_or_create_present l t) as [c ->].
+  cbn. destruct (t_failures c); reflexivity.
+Qed.
+
+Lemma grows_add g : grows (add_failure_groups g).
+Proof. intros c H. cbn. destruct (t_failures c); [congruence | discriminate]. Qed.
+
+Lemma junit_step_keeps l s t w e s1 t1 w1 : junit_step false s t w e = Running s1 t1 w1 ->
+  has_failure l t = true -> has_failure l t1 = true.
+Proof.
+  intros Hs H. destruct e as [r st reason | l0 | | ]; cbn [junit_step] in Hs.
+  - destruct st.
+    + injection Hs as <- <- <-. apply has_failure_get_or_create, H.
+    + destruct (dget (r_label r) (failures (on_scenario_finished s r))); injection Hs as <- <- <-;
+        apply has_failure_tupdate; try apply grows_add; apply has_failure_get_or_create, H.
+    + injection Hs as <- <- <-. apply has_failure_get_or_create, H.
+    + destruct reason; injection Hs as <- <- <-.
+      * apply has_failure_tupdate; [intros c Hc; exact Hc | apply has_failure_get_or_create, H].
+      * apply has_failure_get_or_create, H.
+    + injection Hs as <- <- <-. apply has_failure_get_or_create, H.
+  - injection Hs as <- <- <-. apply has_failure_tupdate; [intros c Hc; exact Hc | apply has_failure_get_or_create, H].
+  - injection Hs as <- <- <-. exact H.
+  - injection Hs as <- <- <-. exact H.
+Qed.
+
+Lemma junit_from_keeps l h : forall s t w s1 t1 w1, junit_from false s t w h = Running s1 t1 w1 ->
+  has_failure l t = true -> has_failure l t1 = true.
+Proof.
+  induction h as [|e h IH]; intros s t w s1 t1 w1 Hr H.
+  - cbn in Hr. injection Hr as <- <- <-. exact H.
+  - cbn [junit_from] in Hr. destruct (junit_step false s t w e) as [?|s' t' w'] eqn:Es; [discriminate|].
+    apply (IH _ _ _ _ _ _ Hr). apply (junit_step_keeps l _ _ _ _ _ _ _ Es H).
+Qed.
+
+Lemma junit_from_reports h : forall s t w s1 t1 w1 l, junit_from false s t w h = Running s1 t1 w1 ->
+  In l (failure_labels h) -> has_failure l t1 = true.
+Proof.
+  induction h as [|e h IH]; intros s t w s1 t1 w1 l Hr Hin; [destruct Hin|].
+  cbn [junit_from] in Hr. destruct (junit_step false s t w e) as [?|s' t' w'] eqn:Es; [discriminate|].
+  destruct e as [r st reason | l0 | | ]; try (cbn [failure_labels] in Hin; apply (IH _ _ _ _ _ _ l Hr Hin)).
+  destruct st; try (cbn [failure_labels] in Hin; apply (IH _ _ _ _ _ _ l Hr Hin)).
+  cbn [failure_labels] in Hin. destruct Hin as [<-|Hin]; [|apply (IH _ _ _ _ _ _ l Hr Hin)].
+  apply (junit_from_keeps (r_label r) h _ _ _ _ _ _ Hr).
+  cbn [junit_step] in Es. destruct (dget (r_label r) (failures (on_scenario_finished s r))); injection Es as <- <- <-; apply has_failure_added.
+Qed.
+
+Lemma junit_failure_reported h s t w l : junit_run h = Running s t w -> In l (failure_labels h) -> has_failure l t = true.
+Proof. intros Hr Hin. apply (junit_from_reports h _ _ _ _ _ _ l Hr Hin). Qed.
 
 (* GET /u = label 1, Stateful tests = label 2; failure identity 7 = ServerError for GET /u *)
 Definition rec_fuzz : recorder := {| r_label := 1; r_cases := [{| c_id := 10; c_checks := [None; Some 7] |}] |}.
 Definition rec_stateful : recorder := {| r_label := 2; r_cases := [{| c_id := 20; c_checks := [Some 7] |}] |}.
 Definition h_rediscovered : list event :=
   [ScenarioFinished rec_fuzz StFailure false; ScenarioFinished rec_stateful StFailure false; EngineFinished].
-Lemma junit_refuted : junit_run h_rediscovered = Crash 2.
+Lemma junit_refuted : junit_run_old h_rediscovered = Crash 2.
 Proof. vm_compute; reflexivity. Qed.
 
 (* non-vacuity: two labels with their own failures, a rediscovery under a known label, a skip, an error; the file is written *)
@@ -669,6 +832,15 @@ Example junit_fine : fresh_failure_or_known_label h_fine = true
      | _ => False
      end.
 Proof. split; [vm_compute; reflexivity | vm_compute; split; reflexivity]. Qed.
+
+(* the rediscovery history under the handler as it is now: both labels carry a failure element, the second one
+   with no group of its own (the already-reported message), and the file is written *)
+Example junit_rediscovered_now :
+  match junit_run h_rediscovered with
+  | Running _ _ (Some t) => map fst t = [1; 2] /\ map (fun kv => t_failures (snd kv)) t = [[[(10, [7])]]; [[]]]
+  | _ => False
+  end.
+Proof. vm_compute. split; reflexivity. Qed.
 
 (* ------------------------------------------------------------------ *)
 (* the index loop of write_double_quoted computes the functional form  *)
@@ -759,8 +931,9 @@ Proof. exists [0x1F600]. split; [reflexivity|]. destruct json_refuted as [H _]. 
 Lemma once_refuted_ex : exists w h i, In i (delivered h) /\ ~ In i (map fst (fst (written w h))) /\
   snd (written w h) = Died.
 Proof.
-  exists har_sanitized, [CScenario [i_user 1]; CScenario [i_plain 2]], 2.
-  destruct once_refuted_har as [H1 H2]. rewrite H1, H2. repeat split; [right; left; reflexivity | intros []].
+  exists vcr_default, [CScenario [i_plain 1; i_undefined 2; i_plain 3]], 3.
+  destruct once_refuted_vcr as [H1 H2]. rewrite H1, H2. repeat split; [right; right; left; reflexivity|].
+  cbn. intros [H|[H|[]]]; discriminate.
 Qed.
 
 (* ------------------------------------------------------------------ *)
@@ -813,7 +986,7 @@ Proof. intros H. unfold har_entry, vcr_entry, vcr_step, vcr_req_body. cbn. rewri
 (* non-vacuity: POST with a body, then GET without: the second entry carries nothing of the first *)
 Definition x_post : xchg :=
   {| x_id := 1; x_req := {| q_method := [112;111;115;116]; q_uri := [47;105]; q_headers := [(s_content_type, [[106]])]; q_body := Some [123;125] |};
-     x_resp := Some {| p_status := 201; p_message := [79;75]; p_headers := []; p_content := [123;125]; p_encoding := None; p_version := [49;46;49] |};
+     x_resp := Some {| p_status := 201; p_message := [79;75]; p_headers := []; p_content := [123;125]; p_encoding := None; p_codec := CodecOk; p_version := [49;46;49] |};
      x_checks := Some [([97], false); ([98], true)] |}.
 Definition x_get : xchg :=
   {| x_id := 2; x_req := {| q_method := [71;69;84]; q_uri := [47;105]; q_headers := []; q_body := None |}; x_resp := None; x_checks := None |}.
@@ -822,3 +995,10 @@ Example pointwise_nonvacuous :
   /\ map ve_status (vcr_loop true vvars0 [x_post; x_get]) = [VFailure; VError]
   /\ map he_method (har_loop false hvars0 [x_post]) = [[80;79;83;84]].
 Proof. repeat split. Qed.
+
+(* an unknown charset is written as utf8 now; the query string is what lies between ? and # *)
+Example unknown_charset_falls_back :
+  vcr_resp_body false {| p_status := 200; p_message := []; p_headers := []; p_content := [104]; p_encoding := Some [98;111;103;117;115]; p_codec := CodecUnknown; p_version := [] |}
+  = Some (s_utf8, CodecReplace s_utf8 [104])
+  /\ query_of [104;58;47;47;91;70;93;64;104;47;112;63;97;61;49;38;98;35;102;63;120] = [97;61;49;38;98].
+Proof. split; reflexivity. Qed.
